@@ -148,7 +148,9 @@ func (f *freshnessCalculator) CalculateFreshness(
 		usefulLife = maxAge // Response is fresh for max-age seconds
 	}
 
-	if usefulLife == 0 {
+	// max-age takes precedence over Expires and over heuristics whenever it is
+	// present (RFC 9111 §4.2.1), also when it is zero or invalid.
+	if !resCC.MaxAgePresent() {
 		expires, found, valid := entry.ExpiresHeader()
 		switch {
 		case valid && expires.After(date):
